@@ -198,6 +198,34 @@ V('c04-twin-classify-reordered', 'C04', 'C04.CLASSIFY', BR,
 
 CA = '_cache.py'
 # ---------------------------------------------------------------- C05
+# C05.LOOKUPS
+V('c05-lookup-all-by-details-or', 'C05', 'C05.LOOKUPS', CA,
+  "        return [entry for entry in list(records) if type_ == entry.type and class_ == entry.class_]",
+  "        return [entry for entry in list(records) if type_ == entry.type or class_ == entry.class_]", names=['get_all_by_details'])
+V('c05-lookup-by-details-ignores-class', 'C05', 'C05.LOOKUPS', CA,
+  "            if type_ == cached_entry.type and class_ == cached_entry.class_:\n                return cached_entry",
+  "            if type_ == cached_entry.type:\n                return cached_entry", names=['get_by_details'])
+V('c05-lookup-add-records-short-circuit', 'C05', 'C05.LOOKUPS', CA,
+  "            if self._async_add(entry):\n                new = True", "            new = new or self._async_add(entry)", names=['async_add_records'])
+V('c05-lookup-remove-records-first-only', 'C05', 'C05.LOOKUPS', CA,
+  "        for entry in entries:\n            self._async_remove(entry)", "        for entry in entries:\n            self._async_remove(entry)\n            break", names=['async_remove_records'])
+V('c05-lookup-entries-with-server-none', 'C05', 'C05.LOOKUPS', CA,
+  "        return self.service_cache.get(name.lower()) or {}", "        return self.service_cache.get(name.lower())", names=['async_entries_with_server'])
+V('c05-lookup-conflict-ignores-expiry', 'C05', 'C05.LOOKUPS', CA,
+  "                and not record.is_expired(now)\n", "", names=['current_entry_with_name_and_alias'])
+V('c05-lookup-get-shared-by-type-only', 'C05', 'C05.LOOKUPS', CA,
+  "            if entry.__eq__(cached_entry):", "            if entry.type == cached_entry.type:", names=['DNSCache.get'])
+V('c05-lookup-srv-not-indexed-by-host', 'C05', 'C05.LOOKUPS', CA,
+  "            service_store[record] = record\n", "            pass\n", names=['_async_add'])
+V('c05-lookup-twin-loop-append', 'C05', 'C05.LOOKUPS', CA,
+  "        return [entry for entry in list(records) if type_ == entry.type and class_ == entry.class_]",
+  "        out = []\n        for entry in list(records):\n            if entry.class_ != class_ or entry.type != type_:\n                continue\n            out.append(entry)\n        return out", expect='silent')
+V('c05-lookup-twin-get-eq-operator', 'C05', 'C05.LOOKUPS', CA,
+  "            if entry.__eq__(cached_entry):", "            if entry == cached_entry:", expect='silent')
+V('c05-lookup-twin-entries-default', 'C05', 'C05.LOOKUPS', CA,
+  "        return self.cache.get(name.lower()) or {}", "        bucket = self.cache.get(name.lower())\n        return {} if bucket is None else bucket", expect='silent')
+V('c05-lookup-twin-add-records-any', 'C05', 'C05.LOOKUPS', CA,
+  "            if self._async_add(entry):\n                new = True", "            new = self._async_add(entry) or new", expect='silent')
 V('c05-kv-predelete-removed', 'C05', 'C05.KV', CA,
   "        store.pop(record, None)\n        store[record] = record", "        store[record] = record", names=['_async_add'])
 V('c05-kv-service-predelete-removed', 'C05', 'C05.KV', CA,
